@@ -27,7 +27,7 @@ structure Sim where
 def compileProg (udp : Bool) (limit epLimit : Nat) (prog : String) : List Act :=
   (prog.splitOn "+").foldl (fun acc st =>
     if st == "r" || st == "" then acc
-    else if st == "p" then acc ++ [.send 0] ++ pingProg
+    else if st == "p" then acc ++ pingProg udp
     else
       let k := (st.drop 1).toString.toNat?.getD 0
       if st.startsWith "g" then acc ++ doProg udp 1 epLimit limit k
